@@ -125,7 +125,7 @@ pub fn install_fatal_handlers(fd: i32) {
         let stack = libc::malloc(ss_size);
         let ss = libc::stack_t { ss_sp: stack, ss_flags: 0, ss_size };
         libc::sigaltstack(&ss, std::ptr::null_mut());
-        for sig in [libc::SIGSEGV, libc::SIGBUS, libc::SIGABRT, libc::SIGILL, libc::SIGFPE] {
+        for sig in [libc::SIGSEGV, libc::SIGBUS, libc::SIGABRT, libc::SIGILL, libc::SIGFPE, libc::SIGALRM] {
             let mut sa: libc::sigaction = std::mem::zeroed();
             sa.sa_sigaction = fatal_handler as *const () as usize;
             sa.sa_flags = libc::SA_ONSTACK;
